@@ -39,7 +39,6 @@ LEVEL = {"Or": 1, "And": 2, "BitOr": 3, "BitXor": 4, "BitAnd": 5, "Eq": 6, "Neq"
 ATOMS = ["a", "b", "c", "d", "e", "f", "g", "h", "i", "j", "k", "m"]
 
 K_IR_UNARY = "C06-ir-prefix-binds-like-mul"
-K_PEG_XOR = "C06-peg-xor-right-assoc"
 K_ROWAN_UPLUS = "C06-rowan-no-unary-plus"
 K_PEG_LONE_COMMA = "C06-peg-lone-comma"
 K_PEG_LOCAL = "C06-peg-local-binds-list"
@@ -51,7 +50,6 @@ K_PEG_NUM = "C06-peg-number-lexing"
 K_LEX_COMMENT = "C06-lexer-comment-odd-stars"
 K_ROWAN_COMP = "C06-rowan-lenient-comprehension"
 K_PEG_INDEX = "C06-peg-index-chain-split-by-whitespace"
-K_PEG_IMPORTSTR = "C06-peg-importstr-not-reserved"
 K_ROWAN_LEX = "C06-rowan-ignores-lexical-and-literal-errors"
 
 
@@ -284,7 +282,7 @@ def part_a(run, binary, failures, model_diffs):
             run.obligation("model.eval", False, str(m[1])[:300])
             continue
         ref, mir, mpeg, mrow = (tree_of_coq(x) for x in m[:4])
-        k_um, k_xor, k_row = m[4]
+        k_um, k_row = m[4]
         if "fuel" in (ref[0], mir[0], mpeg[0], mrow[0]):
             skipped += 1
             continue
@@ -321,7 +319,7 @@ def part_a(run, binary, failures, model_diffs):
                 model_diffs.append({"case": case, "parser": who, "model": show(model_res), "code": show(got)})
 
         judge("ir-parser", cir, mir, k_um, K_IR_UNARY)
-        judge("peg-parser", cpeg, mpeg, k_xor, K_PEG_XOR)
+        judge("peg-parser", cpeg, mpeg, False, None)     # no known class left for peg (fixed 1596e0a)
         judge("rowan-parser(no error)", crow, mrow, k_row, K_ROWAN_UPLUS, accept_only=True)
         if len(run.samples) < 4 and kind == "tree-redundant" and len(ts) > 8:
             run.samples.append({"source": src, "grammar_tree": show(ref), "ir": show(cir), "peg": show(cpeg),
@@ -633,9 +631,9 @@ def exhaustive_strings(run, limit=None):
 MULSYM = ("*", "/", "%")
 
 
-def regroup(t, unary=True, xor=True):
+def regroup(t, unary=True, xor=False):
     """bottom-up: push a prefix operator down the left spine of a `* / %` chain (what the grammar
-    says ir's tree should have been) and make `^` chains left-nested (what peg's should have been)"""
+    says ir's tree should have been)"""
     if not isinstance(t, list):
         return t
     t = [regroup(x, unary, xor) for x in t]
@@ -645,9 +643,6 @@ def regroup(t, unary=True, xor=True):
                 return ["b", b[1], push(b[2]), b[3]]
             return regroup(["u", t[1], b], unary, xor)
         return push(t[2])
-    if xor and len(t) == 4 and t[0] == "b" and t[1] == "^" and isinstance(t[3], list) and t[3][:2] == ["b", "^"]:
-        # a ^ (b ^ c)  ->  (a ^ b) ^ c
-        return regroup(["b", "^", ["b", "^", t[2], t[3][2]], t[3][3]], unary, xor)
     return t
 
 
@@ -670,13 +665,12 @@ def strip_uplus(t):
     return t
 
 
-CANONS = [(K_PEG_INDEX, flat_index), (K_IR_UNARY, lambda t: regroup(t, True, False)),
-          (K_PEG_XOR, lambda t: regroup(t, False, True))]
+CANONS = [(K_PEG_INDEX, flat_index), (K_IR_UNARY, lambda t: regroup(t, True, False))]
 
 
 def tree_mismatch_class(a, b):
     """smallest set of known regroupings that makes the two trees equal -> its first id"""
-    for n in (1, 2, 3):
+    for n in (1, 2):
         for combo in itertools.combinations(CANONS, n):
             x, y = a, b
             for _, fn in combo:
@@ -710,16 +704,14 @@ def opseq(t):
 
 
 def lexical_trigger(toks):
-    """the python twin of Model.v known_unary_mul / known_xor_chain on a general token list:
-    a prefix-position operator followed later by `* / %`; a `^` followed later by a `^`"""
+    """the python twin of Model.v known_unary_mul on a general token list: a prefix-position
+    operator followed later by `* / %`"""
     if toks is None:
         return None
     for i, t in enumerate(toks):
         if t in ("+", "-", "!", "~") and (i == 0 or not ends_operand(toks[i - 1]) or toks[i - 1] == ")"):
             if any(x in MULSYM for x in toks[i + 1:]):
                 return K_IR_UNARY
-    if sum(1 for t in toks if t == "^") >= 2:
-        return K_PEG_XOR
     return None
 
 
@@ -796,12 +788,6 @@ def repairs(toks):
     up = unary_plus_positions(toks)
     if up:
         out.append(("uplus_a", [t for i, t in enumerate(toks) if i not in up]))
-    # importstr / importbin used as identifiers (peg's reserved-word rule never matches them);
-    # in `importstr importstr` the first one still acts as the keyword
-    imp = [i for i, t in enumerate(toks) if t in ("importstr", "importbin")
-           and not (i + 1 < n and (is_string_tok(toks[i + 1]) or toks[i + 1] in ("importstr", "importbin")))]
-    if imp:
-        out.append(("importstr", ["imp0rt" if i in imp else t for i, t in enumerate(toks)]))
     return out
 
 
@@ -954,8 +940,6 @@ def classify(what, src, kind, toks, r, v, i, rep_meta, rep_res):
                 rr = agree_after(name)
                 if rr and (name == "local_list" or same_tree(rr["peg"]["ok"], r["peg"]["ok"])):
                     return kid
-            if agree_after("importstr"):
-                return K_PEG_IMPORTSTR
         if v["ir"] == "ok" and v["peg"] == "err":
             rr = agree_after("colons")
             if rr and rr["ir"]["ok"] == r["ir"]["ok"]:
